@@ -99,8 +99,8 @@ def deck(m):
         if has("GROUPS"):
             L += ["GRUPTREE", " 'G1' 'FIELD' /", " 'G2' 'G1' /", "/"]
         g = "G2" if has("GROUPS") else "G1"
-        L += ["WELSPECS", " 'P1' '%s' 1 1 1* OIL /" % g, " 'I1' '%s' 3 3 1* WATER /" % g, "/",
-              "COMPDAT", " 'P1' 1 1 1 2 OPEN 1* 1* 0.2 /", " 'I1' 3 3 1 2 OPEN 1* 1* 0.2 /", "/"]
+        L += ["WELSPECS", " 'P1' '%s' 1 1 1* OIL /" % g, " 'I1' '%s' 3 3 1* WATER /" % g] + ([" 'I2' '%s' 2 3 1* GAS /" % g] if has("GINJ") else []) + ["/",
+              "COMPDAT", " 'P1' 1 1 1 2 OPEN 1* 1* 0.2 /", " 'I1' 3 3 1 2 OPEN 1* 1* 0.2 /"] + ([" 'I2' 2 3 1 2 OPEN 1* 1* 0.2 /"] if has("GINJ") else []) + ["/"]
         if has("MSWBR"):
             L += ["COMPDAT", " 'P1' 2 1 2 2 OPEN 1* 1* 0.2 /", " 'P1' 3 1 2 2 OPEN 1* 1* 0.2 /", " 'P1' 1 2 1 2 OPEN 1* 1* 0.2 /", "/"]
         if has("MSWBR"):
@@ -113,7 +113,7 @@ def deck(m):
             L += ["WELSEGS", " 'P1' 2000 0 1* INC HF- /", " 2 2 1 1 5 5 0.2 0.0001 /", " 3 3 1 2 5 5 0.2 0.0001 /", "/",
                   "COMPSEGS", " 'P1' /", " 1 1 1 1 0 5 /", " 1 1 2 1 5 10 /", "/"]
         L += ["WCONPROD", " 'P1' OPEN ORAT 100 4* 50 %s /" % ("1*" if not has("VFP") else "1* 1"), "/",
-              "WCONINJE", " 'I1' WATER OPEN RATE 200 1* 400 /", "/"]
+              "WCONINJE", " 'I1' WATER OPEN RATE 200 1* 400 /"] + ([" 'I2' GAS OPEN RATE 5000 1* 450 /"] if has("GINJ") else []) + ["/"]
         if has("GROUPS"):
             L += ["GCONPROD", " 'G1' ORAT 500 /", "/", "GEFAC", " 'G2' 0.9 /", "/"]
         if has("WTEST"):
